@@ -18,7 +18,12 @@ ASSUMPTIONS = [
  "memcmp native: operands are the context offsets used at its call sites (pad/pad+len, saved_finished/pad, session_id/pad); len concrete per query (1, 2, 12, 24, 32)",
  "compute-Finished-inner: PRF reached through br_ssl_engine_get_PRF and the transcript hash through br_multihash_out are recording stubs at the link seam",
 ]
-MUTANTS = []
+MUTANTS = [
+ "CAUGHT seeded/C03-finished-xor-compare (memcmp native accumulates the XOR of all byte differences): t0-memcmp-hsc-* and t0-memcmp-hss-* with LEN >= 2 (9 of 11 queries; LEN=1 is exact under XOR)",
+ "CAUGHT ssl_hs_client.c memcmp native compares len-1 bytes: all six t0-memcmp-hsc-*",
+ "CAUGHT ssl_hs_server.c compute-Finished-inner labels swapped: t0-finished-hss",
+ "CAUGHT ssl_hs_client.c compute-Finished-inner `version >= BR_TLS12` -> `>`: t0-finished-hsc",
+]
 
 
 def queries():
@@ -31,4 +36,6 @@ def queries():
             qs.append(Q("t0-memcmp-%s-P%d-L%d" % (key, pair, ln), "C03_t0_memcmp.c", units=[],
                         defs=["-DSIDE=%d" % side, "-DPAIR=%d" % pair, "-DLEN=%d" % ln] + inc, unwind=ln + 2, timeout=120,
                         desc="native `memcmp` of %s (Finished / saved_finished / session-id comparison): true exactly when all %d bytes are equal (region pair %d), all bytes symbolic" % (t0tool.PROGRAMS[key], ln, pair)))
+        qs.append(Q("t0-finished-%s" % key, "C03_t0_finished.c", units=[], defs=["-DSIDE=%d" % side] + inc, unwind=66, timeout=120,
+                    desc="native `compute-Finished-inner` of %s: PRF of the given id, master secret, label by direction, seed = transcript hash (TLS 1.2) or MD5||SHA-1 (TLS 1.0/1.1), 12 bytes into the pad; PRF and multihash are recording stubs" % t0tool.PROGRAMS[key]))
     return qs
